@@ -99,6 +99,57 @@ struct Case {
     probes: Vec<P4>,
     #[serde(default)]
     excluded: Vec<String>, // known classes removed by construction (for the evidence counters)
+    #[serde(default)]
+    bulk: Option<Bulk>, // a large operand set described compactly (then `probes` is empty)
+}
+
+/// A large operand set: `n` benign tuples that differ from each other, computed from their index,
+/// with a few fault tuples (NaN, inf, absurdly large) put into different thirds of the set.
+#[derive(Clone, Debug, Serialize, Deserialize)]
+struct Bulk {
+    n: usize,
+    base: u8,
+    faults: Vec<(u16, u8)>,
+}
+
+fn expand(b: &Bulk) -> Vec<P4> {
+    let mut v: Vec<P4> = (0..b.n)
+        .map(|i| {
+            let (a, c, d) = ((i % 977) as f64, (i % 911) as f64, (i % 53) as f64);
+            match b.base % 4 {
+                0 => p4(0.05 + a * 1e-4, 0.6 + c * 1e-4, d, 2020.0),          // geographic, radians
+                1 => p4(4.0e5 + 13.0 * a, 6.1e6 + 7.0 * c, 10.0 + d, 0.0),    // projected
+                2 => p4(3.6e6 + a, 6.0e5 + 2.0 * c, 5.2e6 - d, 0.0),          // cartesian
+                _ => p4(a - 400.0, c / 4.0, d, (i % 5) as f64),               // small numbers
+            }
+        })
+        .collect();
+    for (k, (sel, kind)) in b.faults.iter().enumerate() {
+        let third = k % 3;
+        let (lo, hi) = (third * b.n / 3, (third + 1) * b.n / 3);
+        if hi <= lo {
+            continue;
+        }
+        let pos = lo + pick(*sel, hi - lo);
+        v[pos] = match kind % 8 {
+            0 => p4(f64::NAN, 0.5, 0.0, 0.0),
+            1 => p4(f64::INFINITY, 0.5, 0.0, 0.0),
+            2 => p4(0.2, 0.9, 1.0e25, 0.0),
+            3 => p4(1.0e9, 5.0e6, 0.0, 0.0),
+            4 => p4(3.0, 0.5, 0.0, 0.0),
+            5 => p4(0.1, f64::NAN, 0.0, 0.0),
+            6 => p4(-1.0e12, 1.0, 5.0, 0.0),
+            _ => p4(v[pos][0].0, v[pos][1].0, f64::NAN, 0.0),
+        };
+    }
+    v
+}
+
+fn probes_of(case: &Case) -> Vec<P4> {
+    match &case.bulk {
+        Some(b) => expand(b),
+        None => case.probes.clone(),
+    }
 }
 
 // ---- deterministic layout choices -----------------------------------------------------------
@@ -501,6 +552,30 @@ impl Exec {
     }
 }
 
+impl Exec {
+    /// Sum over chunks of the minimum count over the steps (all steps of the trace must be cached already).
+    fn run_chunked(&mut self, trace: &Trace, probes: &[P4], chunk: usize) -> Option<usize> {
+        let mut data = c4s(probes);
+        let mut total = 0;
+        let mut a = 0;
+        while a < data.len() {
+            let b = (a + chunk).min(data.len());
+            let mut m = usize::MAX;
+            for (def, fwd) in trace {
+                let h = *self.cache.get(def)?;
+                let mut sl: &mut [Coor4D] = &mut data[a..b];
+                match try_apply(&self.ctx, h, dir_of(*fwd), &mut sl) {
+                    Ok(Ok(c)) => m = m.min(c),
+                    _ => return None,
+                }
+            }
+            total += if m == usize::MAX { b - a } else { m };
+            a = b;
+        }
+        Some(total)
+    }
+}
+
 fn describe(case: &Case, texts: &Texts) -> String {
     let mut s = String::new();
     for (i, m) in case.macros.iter().enumerate() {
@@ -615,11 +690,12 @@ fn check(case: &Case, known: &BTreeSet<String>, rec: &mut Rec) -> CaseResult {
         Ok(Ok(op)) => op,
     };
 
-    let n = case.probes.len();
+    let probes = probes_of(case);
+    let n = probes.len();
     let mut lib: Vec<Option<(Vec<Coor4D>, usize)>> = vec![];
     let mut lib_panic: Vec<Option<String>> = vec![];
     for fwd in [true, false] {
-        let mut data = c4s(&case.probes);
+        let mut data = c4s(&probes);
         match try_apply(&ex.ctx, op, dir_of(fwd), &mut data) {
             Err(p) => {
                 lib.push(None);
@@ -637,7 +713,7 @@ fn check(case: &Case, known: &BTreeSet<String>, rec: &mut Rec) -> CaseResult {
     let traces = [plan(case, &texts, Q::NONE, true), plan(case, &texts, Q::NONE, false)];
     let mut refs: Vec<(Vec<Coor4D>, usize)> = vec![];
     for (k, t) in traces.iter().enumerate() {
-        match ex.run(t, &case.probes)? {
+        match ex.run(t, &probes)? {
             RefOut::Done(d, c) => {
                 if let Some(p) = &lib_panic[k] {
                     vfail!("panic-apply-pipeline-only", "the pipeline panics ({p}) where the sequence of stand-alone steps does not\n{}", describe(case, &texts));
@@ -673,7 +749,7 @@ fn check(case: &Case, known: &BTreeSet<String>, rec: &mut Rec) -> CaseResult {
             }
             let mut all = true;
             for k in 0..2 {
-                match ex.run(&t[k], &case.probes)? {
+                match ex.run(&t[k], &probes)? {
                     RefOut::Done(d, c) => all &= same(libv[k], &(d, c)),
                     RefOut::Panicked(_) => all = false,
                 }
@@ -690,7 +766,7 @@ fn check(case: &Case, known: &BTreeSet<String>, rec: &mut Rec) -> CaseResult {
         let what = match first_bits_diff(ld, rd) {
             Some(i) => format!(
                 "tuple {i}: input {}  library {}  sequential stand-alone steps {}  (bitwise comparison, tolerance 0)",
-                fmt_c4(&c4(&case.probes[i])),
+                fmt_c4(&c4(&probes[i])),
                 fmt_c4(&ld[i]),
                 fmt_c4(&rd[i])
             ),
@@ -727,7 +803,9 @@ fn check(case: &Case, known: &BTreeSet<String>, rec: &mut Rec) -> CaseResult {
     rec.class(&format!("steps={}", case.main.steps.len()));
     rec.class(&format!("depth={}", depth(case, &case.main)));
     rec.class(if case.main.piped { "main=pipeline" } else { "main=single" });
-    rec.class(&format!("probes={n}"));
+    if case.bulk.is_none() {
+        rec.class(&format!("probes={n}"));
+    }
     for k in 0..2 {
         if traces[k].is_empty() {
             rec.class("nothing-executed-in-one-direction");
@@ -736,9 +814,22 @@ fn check(case: &Case, known: &BTreeSet<String>, rec: &mut Rec) -> CaseResult {
             rec.class("count<n");
         }
     }
+    let mut chunk_sensitive = false;
+    if case.bulk.is_some() {
+        // would "sum over 1024-chunks of the minimum over the steps" differ from "minimum over the steps"?
+        for k in 0..2 {
+            if let Some(c) = ex.run_chunked(&traces[k], &probes, 1024) {
+                if c != refs[k].1 {
+                    chunk_sensitive = true;
+                }
+            }
+        }
+        rec.class(if chunk_sensitive { "count-depends-on-whole-set(min-of-sums != sum-of-chunk-minima)" } else { "count-insensitive-to-chunking" });
+        rec.class(&format!("set-size>{}", (n.saturating_sub(1)) / 1024 * 1024));
+    }
     rec.metric("max_executed_steps", traces[0].len().max(traces[1].len()) as f64);
     rec.count("standalone_applications", (traces[0].len() + traces[1].len()) as u64);
-    if any_mod && (traces[0].len() >= 2 || traces[1].len() >= 2) && n > 0 {
+    if (case.bulk.is_none() || chunk_sensitive) && any_mod && (traces[0].len() >= 2 || traces[1].len() >= 2) && n > 0 {
         let mut fp = vec![canonical_body(&case.main, &case.macros)];
         for m in &reach {
             fp.push(format!("{}={}", case.macros[*m].name, canonical_body(&case.macros[*m].body, &case.macros)));
@@ -1004,10 +1095,19 @@ fn probe() -> impl Strategy<Value = P4> {
 const INV_SP: [Sp; 5] = [Sp::Suffix, Sp::Infix, Sp::Prefix, Sp::SuffixTrue, Sp::InfixTrue];
 const OMIT_SP: [Sp; 6] = [Sp::Sugar, Sp::Prefix, Sp::Suffix, Sp::Infix, Sp::SuffixTrue, Sp::InfixTrue];
 
-fn build_step(rs: &RawStep, candidates: &[usize], tainted: &[bool], omits: bool) -> Step {
+fn build_step(rs: &RawStep, candidates: &[usize], tainted: &[bool], omits: bool, bulk: bool) -> Step {
     let target = if rs.is_macro && !candidates.is_empty() {
         Target::Macro(candidates[pick(rs.sel, candidates.len())])
-    } else if rs.ow < 20 {
+    } else if bulk && rs.ow >= 100 {
+        // large sets: prefer operators that refuse single tuples (and do not count them)
+        let (name, params) = match rs.a % 4 {
+            0 => ("cart", if rs.b & 1 == 1 { vec![kv("ellps", ELLPS[pick(rs.c, 4)])] } else { vec![] }),
+            1 => ("utm", vec![kv("zone", 32)]),
+            2 => ("utm", vec![kv("zone", 1 + pick(rs.b, 60))]),
+            _ => ("tmerc", vec![kv("lon_0", small(rs.b)), kv("k_0", "0.9996"), kv("x_0", 500000)]),
+        };
+        Target::Elem { name: name.to_string(), params }
+    } else if rs.ow < 20 && !bulk {
         let (name, params) = one_way_elem(rs.a, rs.b, rs.c);
         Target::Elem { name, params }
     } else {
@@ -1041,7 +1141,7 @@ struct Known {
     d4: bool,
 }
 
-fn build(macros: &[RawBody], main: &RawBody, probes: Vec<P4>, nprobes: u8, kn: Known) -> Case {
+fn build(macros: &[RawBody], main: &RawBody, probes: Vec<P4>, nprobes: u8, kn: Known, bulk: Option<Bulk>) -> Case {
     let mut defs: Vec<MacroDef> = vec![];
     let mut level: Vec<usize> = vec![];
     let mut tainted: Vec<bool> = vec![];
@@ -1049,7 +1149,7 @@ fn build(macros: &[RawBody], main: &RawBody, probes: Vec<P4>, nprobes: u8, kn: K
         // a macro may only use earlier macros (no recursion) whose nesting level is < 3
         let cand: Vec<usize> = (0..i).filter(|j| level[*j] < 3).collect();
         let piped = rb.kind >= 3;
-        let steps: Vec<Step> = if piped { rb.steps.iter().map(|rs| build_step(rs, &cand, &tainted, true)).collect() } else { vec![build_step(&rb.steps[0], &cand, &tainted, false)] };
+        let steps: Vec<Step> = if piped { rb.steps.iter().map(|rs| build_step(rs, &cand, &tainted, true, bulk.is_some())).collect() } else { vec![build_step(&rb.steps[0], &cand, &tainted, false, bulk.is_some())] };
         let lv = 1 + steps.iter().map(|s| if let Target::Macro(m) = s.target { level[m] } else { 0 }).max().unwrap_or(0);
         level.push(lv);
         let body = Body { steps, piped, lay: rb.lay, spicy: rb.spicy };
@@ -1059,11 +1159,11 @@ fn build(macros: &[RawBody], main: &RawBody, probes: Vec<P4>, nprobes: u8, kn: K
     }
     let cand: Vec<usize> = (0..defs.len()).collect();
     let piped = main.kind >= 1;
-    let steps: Vec<Step> = if piped { main.steps.iter().map(|rs| build_step(rs, &cand, &tainted, true)).collect() } else { vec![build_step(&main.steps[0], &cand, &tainted, false)] };
+    let steps: Vec<Step> = if piped { main.steps.iter().map(|rs| build_step(rs, &cand, &tainted, true, bulk.is_some())).collect() } else { vec![build_step(&main.steps[0], &cand, &tainted, false, bulk.is_some())] };
     let mut probes = probes;
     // ~4% empty sets, otherwise 1..8 tuples
     probes.truncate(if nprobes < 10 { 0 } else { 1 + pick(((nprobes - 10) as u16) << 8, 8) });
-    let mut case = Case { macros: defs, main: Body { steps, piped, lay: main.lay, spicy: main.spicy }, probes, excluded: vec![] };
+    let mut case = Case { macros: defs, main: Body { steps, piped, lay: main.lay, spicy: main.spicy }, probes: if bulk.is_some() { vec![] } else { probes }, excluded: vec![], bulk };
     strip_unsound_inv(&mut case);
     sanitize(&mut case, kn);
     // the repairs above may remove an omit_inv that shielded a one-way operator
@@ -1232,7 +1332,54 @@ fn random_case(kn: Known, max_main: usize, max_body: usize, macro_weight: f64) -
         prop::collection::vec(probe(), 8),
         any::<u8>(),
     )
-        .prop_map(move |(macros, main, probes, np)| build(&macros, &main, probes, np, kn))
+        .prop_map(move |(macros, main, probes, np)| build(&macros, &main, probes, np, kn, None))
+}
+
+const BULK_SIZES: [usize; 14] = [1025, 1026, 2047, 2048, 2049, 3071, 3072, 3073, 4095, 4096, 4097, 5000, 1024, 1023];
+
+/// Definitions as in `random_case`, but short, rich in operators that refuse single tuples, and applied to
+/// a set of 1023..5000 tuples with 2..6 fault tuples spread over the thirds of the set.
+fn bulk_case(kn: Known) -> impl Strategy<Value = Case> {
+    (
+        prop::collection::vec(raw_body(3, 0.3), 0..=3),
+        raw_body(4, 0.3),
+        any::<u16>(),
+        any::<u8>(),
+        prop::collection::vec((any::<u16>(), any::<u8>()), 2..=6),
+    )
+        .prop_map(move |(macros, mut main, size, base, faults)| {
+            let n = if size % 3 == 0 { 1025 + pick(size, 3976) } else { BULK_SIZES[pick(size, BULK_SIZES.len())] };
+            if main.kind == 0 {
+                main.kind = 1; // always a pipeline
+            }
+            let (mut base, mut faults) = (base, faults);
+            if base & 4 != 0 {
+                // half of the cases: geographic input, first step `cart`, last step `utm zone=32 inv`, passers in
+                // between; one fault tuple is refused by cart (inf), another one only by the inverse utm (h = 1e25)
+                base = 0;
+                if main.steps.len() < 2 {
+                    let c = main.steps[0].clone();
+                    main.steps.push(c);
+                }
+                let last = main.steps.len() - 1;
+                for (i, st) in main.steps.iter_mut().enumerate() {
+                    if i == 0 || i == last {
+                        st.is_macro = false;
+                        st.ow = 200;
+                        st.a = if i == 0 { 0 } else { 1 };
+                        st.b = 0;
+                        st.inv = if i == 0 { None } else { Some(0) };
+                        st.of = None;
+                        st.oi = None;
+                    } else {
+                        st.ow = 50;
+                    }
+                }
+                faults[0].1 = 1;
+                faults[1].1 = 2;
+            }
+            build(&macros, &main, vec![], 255, kn, Some(Bulk { n, base, faults }))
+        })
 }
 
 // ---- exhaustive spelling matrix ---------------------------------------------------------------------
@@ -1309,6 +1456,7 @@ fn matrix_case(i: usize) -> Case {
         main: body(main_steps, true),
         probes: vec![p4(0.2, 0.9, 30.0, 2020.0), p4(f64::NAN, 1.0, 2.0, 3.0), p4(12.0, 55.0, 100.0, 0.0)],
         excluded: vec![],
+        bulk: None,
     }
 }
 
@@ -1378,6 +1526,7 @@ fn one_way_matrix_case(i: usize) -> Case {
         main: body(main_steps, true),
         probes: vec![p4(12.0, 55.0, 100.0, 0.0), p4(f64::NAN, 1.0, 2.0, 3.0), p4(-71.0, -33.0, 2500.0, 2.0)],
         excluded: vec![],
+        bulk: None,
     }
 }
 
@@ -1404,7 +1553,7 @@ fn build_body(rb: &RawBody, cand: &[usize], min_piped: u8) -> Body {
     let one = |rs: &RawStep, omits: bool| {
         let mut rs = rs.clone();
         rs.ow = 255; // invertible operators only: a re-registration must not make an inverted macro one-way
-        build_step(&rs, cand, &no_taint, omits)
+        build_step(&rs, cand, &no_taint, omits, false)
     };
     let steps: Vec<Step> = if piped { rb.steps.iter().map(|rs| one(rs, true)).collect() } else { vec![one(&rb.steps[0], false)] };
     Body { steps, piped, lay: rb.lay, spicy: rb.spicy }
@@ -1477,7 +1626,7 @@ fn run_history<C: Context>(ctx: &mut C, case: &HistCase, rec: &mut Rec) -> CaseR
     let same = |a: &(Vec<Coor4D>, usize), b: &(Vec<Coor4D>, usize)| vec_bits_eq(&a.0, &b.0) && a.1 == b.1;
     for round in 0..=case.rounds.len() {
         for (di, d) in case.defs.iter().enumerate() {
-            let tmp = Case { macros: lib.clone(), main: d.clone(), probes: case.probes.clone(), excluded: vec![] };
+            let tmp = Case { macros: lib.clone(), main: d.clone(), probes: case.probes.clone(), excluded: vec![], bulk: None };
             let texts = render_case(&tmp);
             let history = format!(
                 "context {}, instantiation of definition #{di} after {round} re-registration(s) ({}); every definition text was instantiated in each earlier round too",
@@ -1513,7 +1662,7 @@ fn run_history<C: Context>(ctx: &mut C, case: &HistCase, rec: &mut Rec) -> CaseR
                 // does the handle run an earlier registration state?
                 let mut stale: Option<usize> = None;
                 for (k, old) in earlier.iter().enumerate().rev() {
-                    let t2 = Case { macros: old.clone(), main: d.clone(), probes: vec![], excluded: vec![] };
+                    let t2 = Case { macros: old.clone(), main: d.clone(), probes: vec![], excluded: vec![], bulk: None };
                     let tx2 = render_case(&t2);
                     let mut all = true;
                     for (j, fwd) in [true, false].into_iter().enumerate() {
@@ -1549,7 +1698,7 @@ fn run_history<C: Context>(ctx: &mut C, case: &HistCase, rec: &mut Rec) -> CaseR
             let before = lib.clone();
             lib[r.target].body = r.body.clone();
             for d in &case.defs {
-                let (a, b) = (Case { macros: before.clone(), main: d.clone(), probes: vec![], excluded: vec![] }, Case { macros: lib.clone(), main: d.clone(), probes: vec![], excluded: vec![] });
+                let (a, b) = (Case { macros: before.clone(), main: d.clone(), probes: vec![], excluded: vec![], bulk: None }, Case { macros: lib.clone(), main: d.clone(), probes: vec![], excluded: vec![], bulk: None });
                 let (ta, tb) = (render_case(&a), render_case(&b));
                 if plan(&a, &ta, Q::NONE, true) != plan(&b, &tb, Q::NONE, true) || plan(&a, &ta, Q::NONE, false) != plan(&b, &tb, Q::NONE, false) {
                     if direct_refs(d).contains(&r.target) {
@@ -1683,6 +1832,19 @@ fn main() {
             n,
             move || history_case(kn),
             check_history,
+        );
+    }
+
+    // 5. large operand sets: the count must be the minimum over the steps of the counts over the WHOLE set
+    {
+        let n = run.scale(600, 10_000);
+        let known = known.clone();
+        run.section(
+            "large-sets",
+            "pipelines of 1..4 steps (and up to 3 macros with bodies of 1..3 steps), 60% of the elementary steps drawn from the operators that refuse single tuples without counting them (cart, utm, tmerc; the others pass a NaN on and count it), all modifiers and spellings as in random-pipelines, applied in both directions to ONE set of 1023..5000 tuples (sizes around k*1024 +-1 and random): benign tuples computed from their index (geographic / projected / cartesian / small numbers) with 2..6 fault tuples (NaN, inf, 1e25, 1e9, far-off longitude) placed in different thirds of the set; half of the cases have the shape cart | <passers> | utm zone=32 inv on geographic input with one tuple refused by cart only and one by the inverse utm only; reference = stand-alone steps over the whole set, coordinates bit for bit, count = minimum over the executed steps; non-trivial = the count is sensitive to how the set is cut (sum over 1024-chunks of per-chunk minima != minimum of the per-step counts, measured with the reference)",
+            n,
+            move || bulk_case(kn),
+            move |c: &Case, rec: &mut Rec| check(c, &known, rec),
         );
     }
 
